@@ -86,21 +86,25 @@ def judge(ctx, parts):
                         continue
                     found = True
                     if ctx.violations < 4:
-                        ctx.violation("%s_%s_%d_%d" % (kind, part["tag"], ci, code),
+                        ctx.violation("%s_%s_%d_%d_%d" % (kind, part["tag"], ci, step, code),
                                       dict(payload(part, kind, ci, step, code), what="unlisted finding " + KNOWN[code]))
                 elif code in VIOL:
                     found = True
                     if ctx.violations < 4:
-                        ctx.violation("%s_%s_%d_%d" % (kind, part["tag"], ci, code),
+                        ctx.violation("%s_%s_%d_%d_%d" % (kind, part["tag"], ci, step, code),
                                       dict(payload(part, kind, ci, step, code), what=VIOL[code]))
                 else:
                     mism.append((part, kind, ci, step, code))
+    panics = [x for part in parts for x in (part["rep"].get("panics") or [])]
+    ctx.coverage["whole_app_panics"] = len(panics)
     ctx.coverage["outcome_codes"] = counts
     ctx.coverage["model_mismatches"] = len(mism)
     if mism and not found:
         part, kind, ci, step, code = mism[0]
         raise Broken("correspondence Rewards.v vs the real reward code broke: %s differ (%s case %d step %d)"
                      % (MISMATCH.get(code, str(code)), kind, ci, step), json.dumps(payload(part, kind, ci, step, code), default=str)[:6000])
+    if panics and not found:
+        raise Broken("the real application panicked during a whole-app reward run", "\n".join(panics[:5]))
     return found
 
 
